@@ -310,6 +310,17 @@ def _explore(ctx: Ctx, pid: str) -> None:
                                      {"cfg": cfg, "ops": executed, "seed": seed, "class": cls})
         else:
             ctx.count("refinement-hypothesis:does-not-hold")
+        # hypothesis of C10.sched_refines_slots (flat slot-only configuration + protocol) and its conclusion on the real state
+        if len(hyp) > 2 and hyp[2] == "true":
+            ctx.count("slots-refinement-hypothesis:holds")
+            if hyp[1] == "false" and not stale:
+                ctx.count("slots-refinement-hypothesis:holds-and-no-step-raised")
+                for lname, u in world.true_usage().items():
+                    lc = world.loc_cfg[lname]
+                    slots = lc["slots"] if lc["slots"] is not None else 1
+                    if lc["hw"] is None and u["count"] > slots:
+                        ctx.disagree("conclusion of sched_refines_slots on the real scheduler",
+                                     f"{lname}: {u['count']} occupying jobs > {slots} slots", {"cfg": cfg, "ops": executed, "seed": seed, "class": cls})
 
 
 def replay(ctx: Ctx, pid: str, data: Any) -> None:
